@@ -183,6 +183,8 @@ def main():
     ap.add_argument("--deadline", type=float)
     ap.add_argument("--max-classes", type=int, default=4)
     ap.add_argument("--dump-digests")
+    ap.add_argument("--stop-early", action="store_true",
+                    help="sensitivity runs only: stop scheduling new chunks after the first chunk that reports a violation")
     args = ap.parse_args()
     seed = int(os.environ.get("VERIF_SEED", "0"))
     t_start = time.time()
@@ -217,7 +219,7 @@ def main():
     sys.stdout.flush()
     try:
         merged = run_batch(args.pid, seed, args.tier, nruns, workers=args.workers, deadline_s=deadline,
-                           first_index=args.first)
+                           first_index=args.first, stop_on_violation=args.stop_early)
     except BaseException:
         import traceback
         print("HARNESS-ERROR: the batch supervisor or a case generator failed\n%s" % traceback.format_exc()[-3000:])
